@@ -332,6 +332,16 @@ def lib_plug():
             "g4": {"name": "plug:g4", "version": "0.3.0", "imports": [], "exports": [("ns:p/i@0.2.0", Ix), ("ns:p/j@1.2.0", Ixy)]},
             "g5": {"name": "plug:g5", "version": None, "imports": [("a", fA)], "exports": [("zzz", fA)]},
             "g6": {"name": "plug:g6", "version": None, "imports": [("w", fB)], "exports": [("a", fA)]},
+            # a socket with two imports of different shapes on one track: the first one on the track
+            # (0.2.0, shape y) is not what g3/g4/g7 offer, the second one (0.2.1, shape x) is
+            "s4": {"name": "sock:four", "version": None, "imports": [("ns:p/i@0.2.0", Iy), ("ns:p/i@0.2.1", Ix), ("b", fB)], "exports": [("out", fA)]},
+            # ... and one that leaves an interface import on a track a plug also imports from
+            "s5": {"name": "sock:five", "version": None, "imports": [("a", fA), ("b", fB), ("ns:p/j@1.0.0", Iy)], "exports": [("out", fA)]},
+            "g7": {"name": "plug:g7", "version": None, "imports": [], "exports": [("ns:p/i@0.2.2", Ix)]},
+            # plugs with imports of their own: one that clashes with a socket import `b: B`, one on
+            # the track of the socket import ns:p/j@1.0.0 at a higher version
+            "g8": {"name": "plug:g8", "version": None, "imports": [("b", fA)], "exports": [("a", fA)]},
+            "g9": {"name": "plug:g9", "version": None, "imports": [("ns:p/j@1.1.0", Iy)], "exports": [("a", fA)]},
         },
         "kinds": {"fA": fA},
         "import_names": ["k"],
@@ -339,8 +349,8 @@ def lib_plug():
         "def_names": [],
         "valid_names": ["k", "e1"],
         "deftypes": {},
-        "sockets": ["s1", "s2", "s3"],
-        "plugs": ["g1", "g2", "g3", "g4", "g5", "g6"],
+        "sockets": ["s1", "s2", "s3", "s4", "s5"],
+        "plugs": ["g1", "g2", "g3", "g4", "g5", "g6", "g7", "g8", "g9"],
     }
 
 
